@@ -2,6 +2,7 @@
   C11 — evaluator lifecycle: recompile is atomic, repeatable and instance-local.
 -/
 import Pyab.Spec.Lifecycle
+import Pyab.Properties.PurePremise
 import Pyab.Proofs.Lifecycle
 import Pyab.Generated.Pipeline
 import Pyab.Generated.Config
